@@ -136,3 +136,14 @@ func (t *Trace) Emit(o *Op, res string) {
 	t.Res("%s", res)
 	t.w.Flush() // crash safety: a trace is complete up to the operation that killed the process
 }
+
+// Set replaces the value of an existing argument (or adds it).
+func (o *Op) Set(k string, v any) *Op {
+	for i, kv := range o.Args {
+		if kv[0] == k {
+			o.Args[i][1] = fmt.Sprint(v)
+			return o
+		}
+	}
+	return o.Add(k, v)
+}
